@@ -201,9 +201,18 @@ func runTwin(tp *sim.Tape, tier string, o *runOut) {
 			break
 		}
 		_ = svc.SaveFSM(f.Round, b.dump)
-		if _, err := svc.GetFSMList(); err != nil {
+		if lst, err := svc.GetFSMList(); err != nil {
 			fail(o, "C19", "round-not-listable/"+st, fmt.Sprintf("GetFSMList fails with the round in state %s: %v; history: %s", st, err, h))
 			break
+		} else if lst[f.Round] != st {
+			fail(o, "C19", "listed-state-differs-from-saved-state/"+st, fmt.Sprintf("the round was saved in state %s but GetFSMList reports %q; history: %s", st, lst[f.Round], h))
+			break
+		}
+		if inst, err := state_machines.FromDump(b.dump); err == nil {
+			if ms, _ := inst.State(); string(ms) != st {
+				fail(o, "C19", "restored-machine-in-another-state/"+st, fmt.Sprintf("a round saved in state %s is restored with its machine in state %s; history: %s", st, ms, h))
+				break
+			}
 		}
 		if d, err := svc.GetFSMDump(&dto.DkgIdDTO{DkgID: f.Round}); err != nil || string(d.State) != st {
 			fail(o, "C19", "round-not-inspectable/"+st, fmt.Sprintf("GetFSMDump fails with the round in state %s: %v; history: %s", st, err, h))
